@@ -85,14 +85,31 @@ class SymH:
         return self.ctx.branch(_bt(c))
 
     # assertions
-    def check(self, cond, label, detail=None):
+    def check(self, cond, label, detail=None, robust=None):
+        """robust: optional stronger violation formula; when the assertion is
+        refuted and `robust` is satisfiable too, its model is the witness
+        (survives float replay)."""
         if isinstance(cond, bool):
             if cond:
                 self.ctx.checks += 1
                 return True
             return self._record(self.ctx.fail(label, detail))
         ok = self.ctx.check(_bt(cond), label, detail)
+        if ok is False and robust is not None:
+            self.ctx.solver.set("timeout", 2000)
+            try:
+                r = self.ctx._check(_bt(robust))
+            finally:
+                self.ctx.solver.set("timeout", self.ctx.timeout_ms)
+            if r == z3.sat:
+                inputs = self.ctx.model_inputs(self.ctx.solver.model())
+                self.ctx.failures[-1].inputs = {k: str(v) for k, v in inputs.items()}
         return self._record(ok)
+
+    def far(self, a, b, gap):
+        d = term_of(a) - term_of(b)
+        g = term_of(gap)
+        return SymBool(z3.Or(d > g, -d > g))
 
     def _record(self, ok):
         if ok is False:
@@ -201,12 +218,15 @@ class ConH:
     def is_true(self, c):
         return bool(c)
 
-    def check(self, cond, label, detail=None):
+    def check(self, cond, label, detail=None, robust=None):
         if cond:
             self.passed += 1
             return True
         self.failed.append((label, detail))
         return False
+
+    def far(self, a, b, gap):
+        return abs(a - b) > gap
 
     def check_eq(self, a, b, label, detail=None, robust=None):
         return self.check(self.eq(a, b), label, (detail, a, b))
